@@ -69,6 +69,20 @@ Lemma in_size_sub lo hi lo' hi' n :
   size_sub lo hi lo' hi' = true -> in_size lo' hi' n = true -> in_size lo hi n = true.
 Proof. unfold size_sub, in_size. lia. Qed.
 
+(* a Float range that covers an unbounded one is unbounded; instances of the covered range (NaN for the unbounded
+   one) are instances of the covering range *)
+Lemma float_unbounded_sub lo hi lo' hi' :
+  size_sub lo hi lo' hi' = true -> float_unbounded lo' hi' = true -> float_unbounded lo hi = true.
+Proof. unfold size_sub, float_unbounded. lia. Qed.
+
+Lemma float_in_sub lo hi lo' hi' n :
+  size_sub lo hi lo' hi' = true -> in_size lo' hi' n || float_unbounded lo' hi' = true ->
+  in_size lo hi n || float_unbounded lo hi = true.
+Proof. unfold size_sub, in_size, float_unbounded. lia. Qed.
+
+Lemma float_unbounded_default : float_unbounded (- InfF) InfF = true.
+Proof. reflexivity. Qed.
+
 Lemma is_any_eq a : is_any a = true -> a = TAny.
 Proof. destruct a; cbn; congruence. Qed.
 
@@ -91,7 +105,7 @@ Section Basics.
     | FNumeric, (VInt _ | VFloat _ | VNaN) => true
     | FBoolean, VBool _ => true
     | FInteger, VInt _ => true
-    | FFloat, VFloat k => in_size (-9218868437227405311) 9218868437227405311 k
+    | FFloat, (VFloat _ | VNaN) => true          (* the default Float type is unbounded *)
     | FRegexp, VRegexp _ => true
     | FUndef, VUndef => true
     | _, _ => false
@@ -99,8 +113,7 @@ Section Basics.
 
   Lemma flat_recv_sound c b v : flat_recv c b = true -> inst b v = true -> flat_inst c v = true.
   Proof.
-    destruct c, b; cbn; try discriminate; intros H Hi; destruct v; try discriminate; try reflexivity.
-    eapply in_size_sub; eauto.
+    destruct c, b; cbn; try discriminate; intros H Hi; destruct v; try discriminate; reflexivity.
   Qed.
 
   Lemma flat_sound c b : no_unit b = true -> flat c b = true -> forall x, inst b x = true -> flat_inst c x = true.
